@@ -66,6 +66,8 @@ def parse : List String → Option (Option Ev)
       | some a, some b => some (some (.hbegin (.movea a b)))
       | _, _ => none
   | ["hfree"] => some none   -- client-side ownership marker for the python oracle (stutter)
+  | ["prv", _, _] => some none   -- identity tag of the value now in the register (python oracle; stutter)
+  | ["rrv", _] => some none      -- identity tag of the value an operation handed back (python oracle; stutter)
   | ["he"] => some (some (.hend none))
   | ["he", b] => (boolOf b).map (fun b => some (.hend (some b)))
   | ["prd", "P", v] => v.toInt?.map (fun v => some (.rd v))
